@@ -55,8 +55,7 @@ class Pool:
             j = dict(j, id=self.nid, scratch=self.work, unsafe=unsafe, known_comps=known_comps,
                      states={sid: states[sid] for sid in need})
             out.append(j)
-        chunk = max(1, min(8, len(out) // (WORKERS * 8) or 1))
-        return out, self.pool.imap_unordered(lib.run_job, out, chunksize=chunk)
+        return out, self.pool.imap_unordered(lib.run_job, out, chunksize=1)     # (an iterator with next(timeout))
 
     def restart(self):
         self.pool.terminate()
@@ -345,6 +344,9 @@ def run(ctx):
     try:
         dump = os.path.join(ctx.tmpdir("names"), "names")
         jobs.submit("names", "WorkTreeConfNamesMC.tla", "WorkTreeConfNamesMC.cfg", workers=2, dump_states=dump, timeout=300)
+        bad = pool.pool.apply(lib.selftest, (pool.work,))
+        if bad:
+            raise MachineryError(bad)
         flags = pool.pool.apply(_probe, ({"scratch": pool.work},))
         ctx.cov["variant"] = flags
         D = "<- ProtsDefault"
